@@ -428,7 +428,10 @@ func (s *Sim) stop() {
 		if alive == 0 {
 			return
 		}
-		time.Sleep(1500 * time.Millisecond)
+		// daemons blocked on long tickers (a storage GC every 15 minutes) need more and
+		// more simulated time to reach their next Resume
+		d := 1500 * time.Millisecond << uint(min(round, 13))
+		time.Sleep(d)
 	}
 	s.mu.Lock()
 	for _, t := range s.tasks {
